@@ -214,6 +214,8 @@ def one_run(ctx, corrs, stock_only=False, dense=False, rs=None, k=None):
     cfgk = trading.gen_config(rnd, S, {"p_init_pos": 0.2})
     if k is not None and k % 5 == 2:
         cfgk["accounts_mod"]["validate_stock_position"] = False       # short sales allowed (--short-stock): a holding may be negative; the ledger identities do not care
+        S["trf"] = {}      # (no share conversions in these runs: the stream's successor prices are unrelated to the predecessor's, and a SHORT successor re-marked at the converted price
+        #                    can wipe the account out — a forced liquidation the ledger cannot foresee from the state before the settlement)
     tr = trading.run_trading(rnd, S, cfgk)
     tr.run_seed, tr.run_index = rs, k
     ctx.stats["runs"] += 1
